@@ -170,6 +170,21 @@ def observer_arms(d, T, validated):
             'let rt: bool = probe::ser(fmt, &v).ok().and_then(|d| probe::de::<Inner>(fmt, &d).ok()).map(|w| w.enc() == v.enc()).unwrap_or(false); '
             '(guard(|| match probe::ser(fmt, &t) { Ok(doc) => match probe::de::<%s>(fmt, &doc) { Ok(t) => ok(t.into_inner().enc()), '
             'Err(m) => probe::classify_de_error(&m, &variant_texts(), "Nt") }, Err(e) => json!({"k": "sererr"}) }), json!({%s "v": v.enc(), "rt": rt})) } } }' % (T, env_v))
+    # values obtained through FromStr / TryFrom / Deserialize (instead of the constructor) are re-entered into the constructor
+    creators = {}
+    if fam == "string" and has(d, "FromStr"):
+        creators["canon_via_from_str"] = "x.parse::<%s>().ok()" % T
+    if has(d, "TryFrom"):
+        creators["canon_via_try_from"] = "<%s as TryFrom<Inner>>::try_from(x.clone()).ok()" % T
+    if has(d, "From"):
+        creators["canon_via_from"] = "Some(<%s as From<Inner>>::from(x.clone()))" % T
+    if serde_ok:
+        creators["canon_via_deser"] = "serde_json::to_string(&x).ok().and_then(|s| serde_json::from_str::<%s>(&s).ok())" % T
+    for ep, mkexpr in creators.items():
+        arms.append(
+            '"%s" => { let x: Inner = <Inner as Dec>::dec(inp); '
+            'match ::std::panic::catch_unwind(::std::panic::AssertUnwindSafe(|| %s)).ok().flatten() { None => (json!({"k": "skip"}), Value::Null), '
+            'Some(t) => { let v: Inner = t.clone().into_inner(); (guard(|| res(mk_res(v.clone()))), json!({%s "v": v.enc(), "rt": true})) } } }' % (ep, mkexpr, env_v))
     for ep, expr in steps.items():
         arms.append(
             '"%s" => { let x: Inner = <Inner as Dec>::dec(inp); match mk(x) { None => (json!({"k": "skip"}), Value::Null), '
